@@ -286,8 +286,9 @@ async fn main(plan: Plan) -> Outcome {
                         // Through the CachingSession: the statement text is prepared once
                         // and cached; every execution applies the CALLER's statement
                         // options (here: its timestamp, or none) to the cached statement.
+                        // (A caller without an explicit timestamp passes the bare text: no
+                        // statement option is set at all.)
                         let mut st = Statement::new(client::Q_PREPARED_INSERT);
-                        st.set_is_idempotent(true);
                         st.set_timestamp(ts);
                         if kinds[k] == 7 {
                             let _ = caching.execute_unpaged(st, (k as i64, m as i64)).await;
@@ -372,6 +373,12 @@ async fn main(plan: Plan) -> Outcome {
                         format!("statement marker {m} has explicit timestamp {} but {ts} was on the wire", explicit_ts(*m)),
                     );
                 }
+            } else if seen.keys().any(|other| other & F_EXPLICIT != 0 && explicit_ts(*other) == *ts) {
+                // (Explicit values lie nowhere near the simulated clock.)
+                out.violation(
+                    "c18.foreign_explicit_timestamp",
+                    format!("write marker {m}, which has no explicit timestamp, reached the node with {ts}: the explicit timestamp of another statement of this run"),
+                );
             } else if *unprepared {
                 // Not executed: the repeated EXECUTE may carry the same generated value.
             } else if let Some(prev) = generated.insert(*ts, *m) {
